@@ -231,10 +231,9 @@ class PersLandscapeApprox(PersLandscape):
         for i in range(self.num_steps):
             for k in range(len(W[i])):
                 L[k][i] = W[i][k]
-        # check if L is empty
+        # no grid node received a value: the landscape is zero on the whole grid
         if not L.size:
-            L = np.array(["empty"])
-            print("Bad choice of grid, values is empty")
+            L = np.zeros((1, self.num_steps))
         self.values = L
         self.max_depth = len(L)
         return
